@@ -29,8 +29,12 @@ META = {
     "bounds": ["all 2^23 frames with bit 16 = 0, no map", "device/instance frames x map {absent, one entry "
                "with symbolic (short address, instance number, type 0..31)}",
                "map entries created through add_type with int, DeviceShort/InstanceNumber and module arguments",
-               "thorough: a second symbolic entry added first (keys may coincide: the later add_type wins)"],
-    "stubs": ["isinstance/int shims", "SymDict registries", "SymKeyDict as the mapper's dict in symbolic mode"],
+               "thorough: a second symbolic entry added first (keys may coincide: the later add_type wins)",
+               "mapper histories on the untouched DeviceInstanceTypeMapper (concrete keys from a small set, "
+               "symbolic frame limited to those keys plus one absent value, symbolic type): look up, add, "
+               "look up, clear, add, look up - with retry_decode of the first ambiguous result after every step"],
+    "stubs": ["isinstance/int shims", "SymDict registries", "SymKeyDict as the mapper's dict in symbolic mode "
+              "(case 'map' only; skipped with a note if the mapper no longer keeps a plain dict in _mapping)"],
     "outside": ["maps with more than one entry (lookups are independent per key)",
                 "instance types > 31 in a map", "maps whose get_type raises"],
     "assumptions": [],
